@@ -11,3 +11,4 @@ def run(ck):
     glyph.r4_insert_protocol(ck, P)
     image.r15_6_free_while_linked(ck, P)
     glyph.r5_component_alpha_siblings(ck, P)
+    glyph.r6_arguments_kept_whole(ck, P)
